@@ -106,12 +106,21 @@ def cut(X3, lens):
     return pd.DataFrame({"dim_%d" % j: [pd.Series(X3[i, j, : lens[i]].copy()) for i in range(n)] for j in range(c)})
 
 
+CELL_ORIGIN = [0]  # time index origin of the Series cells of nested frames built by wrap() (set per case)
+
+
 def wrap(X3, container, labels=None, lens=None):
     if lens is not None:
         return cut(X3, lens)
     if container != "nested":
         return X3.copy()
     X = panelpool.to_nested(X3)
+    if CELL_ORIGIN[0]:
+        # the cells' own time index need not start at 0: the data are the values
+        for j in range(X.shape[1]):
+            for i in range(X.shape[0]):
+                c = X.iat[i, j]
+                c.index = pd.RangeIndex(CELL_ORIGIN[0], CELL_ORIGIN[0] + len(c))
     if labels is not None:
         # row labels are not data: a shuffled / filtered training frame that was not re-indexed
         n = len(X)
@@ -124,6 +133,9 @@ def wrap(X3, container, labels=None, lens=None):
 
 def oracle(case, ctx):
     spec = case["spec"]
+    CELL_ORIGIN[0] = int(case.get("cell_origin") or 0)
+    if CELL_ORIGIN[0]:
+        ctx.label("cell_time_index_origin_%d" % CELL_ORIGIN[0])
     Xtr, y, Xap = data(case)
     n = len(Xap)
     perm = [p % n for p in case["perm"]][:n]
@@ -266,7 +278,7 @@ def cases(draw, family):
         "subset": draw(st.lists(st.integers(0, 5), min_size=1, max_size=4)),
         "fit_container": draw(st.sampled_from(["nested", "numpy3d"])),
         "apply_container": draw(st.sampled_from(["nested", "numpy3d"])),
-        "keep_labels": draw(st.booleans()), "prefit": draw(st.integers(0, 3)) == 0, "int_panel": draw(st.integers(0, 4)) == 0,
+        "keep_labels": draw(st.booleans()), "prefit": draw(st.integers(0, 3)) == 0, "cell_origin": draw(st.sampled_from([0, 0, 3, -2])), "int_panel": draw(st.integers(0, 4)) == 0,
         "unequal": draw(st.one_of(st.none(), st.lists(st.integers(0, 30), min_size=2, max_size=6))),
         "fit_labels": draw(st.sampled_from([None, None, "shifted", "reversed", "shuffled", "strings"])),
     }
@@ -333,13 +345,16 @@ def enum_every_kind(tier):
     base = {"seed": 4321, "n_train": 8, "n_apply": 5, "c": 2, "t": 20, "dup": True, "copy_mask": [True, False, False], "label_kind": "str",
             "perm": [3, 0, 4, 1, 2, 5], "single": 2, "subset": [4, 1], "unequal": None, "int_panel": False}
     kinds = [("transformer", k) for k in panelpool.PANEL_TRANSFORMERS if k != "plateau"] + [("estimator", k) for k in panelpool.CLASSIFIERS + ("tsfr",)]
-    for (fam, k), cont, labels, prefit in itertools.product(kinds, ["nested", "numpy3d"], [None, "shuffled"], [False, True]):
+    for (fam, k), cont, labels, prefit in itertools.product(kinds, ["nested", "numpy3d"], [None, "shuffled", "cell_origin"], [False, True]):
         spec = {"kind": k, "random_state": 3, "n_columns": 2, "num_intervals": 3, "n_intervals": 2, "intervals": 3, "window_length": 4,
                 "length": 9, "num_kernels": 6}
         if k == "pad":
             spec["pad_length"] = 40
-        yield dict(base, family=fam, spec=spec, fit_container="nested" if labels else cont, apply_container=cont,
-                   keep_labels=labels is not None, fit_labels=labels, prefit=prefit)
+        origin = 3 if labels == "cell_origin" else 0
+        if origin:
+            labels = None
+        yield dict(base, family=fam, spec=spec, fit_container="nested" if (labels or origin) else cont, apply_container=cont,
+                   keep_labels=labels is not None, fit_labels=labels, prefit=prefit, cell_origin=origin)
 
 
 def subchecks():
